@@ -981,3 +981,107 @@ def act_on_routes_qubits_rule(ctx, rid: str, floor: int = 3):
                    'state it acts on', ci.mod.rel, u.lineno)
     if n == 0:
         raise AnalysisError(f'{rid}: no _act_on_ with a local-dependent state update found')
+
+
+# ---------------------------------------------------------------------------------------------------------------------
+def aqt_single_qubit_shortcut_rule(ctx, rid: str):
+    """AQTTargetGateset._decompose_single_qubit_operation: a hard-wired replacement is the gate it replaces."""
+    import numpy as np
+    from .. import fdx
+    repo = ctx.repo
+    ctx.rule(rid, 'shortcut == gate: interpreting AQTTargetGateset._decompose_single_qubit_operation on model operations H**e (e = 1, -1, 3, 2, 0, 0.5, 1.5), whenever the method returns a '
+             'hard-wired rotation list (not the generic matrix synthesis) the product of the listed rx / ry / rz rotations equals H**e up to global phase', floor=5, style='FDX')
+    ci = repo.cls('cirq_aqt.aqt_target_gateset.AQTTargetGateset')
+    fn = ci.methods.get('_decompose_single_qubit_operation')
+    if fn is None:
+        raise AnalysisError('AQTTargetGateset._decompose_single_qubit_operation vanished')
+    X = np.array([[0, 1], [1, 0]], dtype=complex)
+    Y = np.array([[0, -1j], [1j, 0]], dtype=complex)
+    Z = np.diag([1, -1]).astype(complex)
+    H = (X + Z) / np.sqrt(2)
+
+    def rot(P, rads):
+        return np.cos(rads / 2) * np.eye(2) - 1j * np.sin(rads / 2) * P
+
+    class Rot:
+        def __init__(self, mat):
+            self.mat = mat
+
+        def on(self, *qs):
+            return self
+
+    class HP:
+        def __init__(self, e):
+            self.exponent = e
+            self._exponent = e
+            self.global_shift = 0.0
+
+    class Op:
+        _fdx_settable = False
+
+        def __init__(self, e):
+            self.gate = HP(e)
+            self.qubits = ('q0',)
+            self.tags = ()
+            self.untagged = self
+
+    class Generic:
+        pass
+    for e in (1, -1, 3, 2, 0, 0.5, 1.5, -3):
+        op = Op(e)
+
+        def call_hook(call, it, op=op):
+            s_ = ast.unparse(call.func)
+            last = s_.split('.')[-1]
+            if last == 'isinstance' or s_ == 'isinstance':
+                v = it.ev(call.args[0])
+                t = ast.unparse(call.args[1]).split('.')[-1]
+                if t == 'CircuitOperation':
+                    return False
+                if t == 'HPowGate':
+                    return isinstance(v, HP)
+                return False
+            if last in ('rx', 'ry', 'rz'):
+                return Rot(rot({'rx': X, 'ry': Y, 'rz': Z}[last], float(it.ev(call.args[0]))))
+            if last == 'has_unitary':
+                return True
+            if last in ('single_qubit_matrix_to_phased_x_z', 'unitary'):
+                return [Generic()] if last.startswith('single') else 'U'
+            return NotImplemented
+
+        def attr_hook(node, it):
+            try:
+                v = it.ev(node.value)
+            except fdx.Unsupported:
+                return NotImplemented
+            if isinstance(v, (Op, HP, Rot)) and hasattr(v, node.attr):
+                return getattr(v, node.attr)
+            if isinstance(v, Generic) and node.attr == 'on':
+                return lambda *a: v
+            if isinstance(v, dict) and node.attr == '_intermediate_result_tag':
+                return '_tag'
+            return NotImplemented
+        params = [a.arg for a in fn.args.args]
+        env = {params[0]: {}, params[1]: op}
+        for extra in params[2:]:
+            env[extra] = 0
+        it = fdx.NumInterp(env, call_hook=call_hook, attr_hook=attr_hook)
+        it.builtins.pop('isinstance', None)
+        try:
+            out = it.call(fn)
+        except (fdx.Unsupported, fdx.Raised) as ex:
+            raise AnalysisError(f'AQTTargetGateset._decompose_single_qubit_operation is outside the interpretable subset: {ex}')
+        if out is NotImplemented or out is None or (isinstance(out, list) and any(isinstance(x, Generic) for x in out)):
+            ctx.ob(rid, f'{ci.qual}._decompose_single_qubit_operation:H**{e}', True, 'generic synthesis / declined', ci.mod.rel, fn.lineno)
+            continue
+        if not (isinstance(out, (list, tuple)) and all(isinstance(x, Rot) for x in out)):
+            raise AnalysisError(f'AQT single-qubit decomposition returned an unmodelled value for H**{e}: {out!r}')
+        u = np.eye(2, dtype=complex)
+        for r_ in out:      # operations are listed in time order
+            u = r_.mat @ u
+        ev_, evec = np.linalg.eigh(H)
+        want = (evec * np.exp(1j * np.pi * e * (1 - ev_) / 2)) @ evec.conj().T
+        ov = abs(np.trace(want.conj().T @ u)) / 2
+        ok = abs(ov - 1) < 1e-9
+        ctx.ob(rid, f'{ci.qual}._decompose_single_qubit_operation:H**{e}', ok, '' if ok else
+               f'H**{e} is replaced by a fixed rotation list whose product is not H**{e} up to phase (overlap {ov:.4f}): the compiled circuit computes something else', ci.mod.rel, fn.lineno)
